@@ -2297,6 +2297,25 @@ impl Translator {
                                 }
                                 _ => unreachable!(),
                             }
+                        } else {
+                            // a void value occupies no slot, but both sides are still evaluated:
+                            // the right-hand side for its effects, an array target for its bounds check
+                            match &*expr1.kind {
+                                ExprKind::IndexAccess(array, index)
+                                    if matches!(
+                                        self.get_ty(mono, array.node()).unwrap(),
+                                        SolvedType::Nominal(Nominal::Array, _)
+                                    ) =>
+                                {
+                                    self.translate_expr(array, offset_table, mono, st);
+                                    self.translate_expr(index, offset_table, mono, st);
+                                    self.translate_expr(rvalue, offset_table, mono, st);
+                                    // arrays of void use dummy values
+                                    self.emit(st, Instr::PushNil(1));
+                                    self.emit(st, Instr::SetIndex(Reg::Top, Reg::Top));
+                                }
+                                _ => self.translate_expr(rvalue, offset_table, mono, st),
+                            }
                         }
                     }
                     AssignOperator::PlusEq
